@@ -29,9 +29,30 @@ let obs_str (o : bobs) =
 
 let zi s = z_of_int (int_of_string s)
 let bi s = s <> "0"
+(* decimal string of any size (append_num takes a size_t: up to 2^64-1) *)
+let zdec s =
+  let ten = z_of_int 10 in
+  let acc = ref Z0 in
+  String.iter (fun ch -> acc := Z.add (Z.mul !acc ten) (z_of_int (Char.code ch - 48))) s;
+  !acc
 
-let parse_op ok body : buf_op option =
+(* allocation failure injected into the call: none, every request ("!op"), only the n-th
+   request counted from 0 ("!<n>op") *)
+type failmode = FNone | FAll | FAt of int
+
+let parse_op fm body : buf_op option =
+  (* operations with one allocation site (or none): the single oracle *)
+  let ok = (match fm with FNone -> true | FAll -> false | FAt n -> n <> 0) in
+  (* parse_dns_binstr: request 0 = the temporary buffer, request 1 = its growth / the terminator *)
+  let ok1, ok2 = (match fm with FNone -> (true, true) | FAll -> (false, false) | FAt 0 -> (false, true)
+                              | FAt 1 -> (true, false) | FAt _ -> (true, true)) in
   match split_on ':' body with
+  | ["nd"; n; l] -> Some (BopAppendNumDec (ok, zdec n, zdec l))
+  | ["nh"; n; l] -> Some (BopAppendNumHex (ok, zdec n, zdec l))
+  | ["pb"; rl; w] -> Some (BopParseBinstr (ok1, ok2, zdec rl, bi w, false))
+  | ["ps"; rl; w] -> Some (BopParseBinstr (ok1, ok2, zdec rl, bi w, true))
+  | ["sx"; h; fl; m] when (match fm with FAt _ -> true | _ -> false) ->
+    (match fm with FAt n -> Some (BopSplitFailAt (z_of_int n, bytes_of_hex h, zi fl, zi m)) | _ -> None)
   | ["a"; h] -> Some (BopAppend (ok, bytes_of_hex h))
   | ["ab"; n] -> Some (BopAppendByte (ok, zi n))
   | ["a16"; n] -> Some (BopAppendBe16 (ok, zi n))
@@ -81,15 +102,21 @@ let run_buf ops =
   let nontriv = ref 0 in
   let f_contract = ref false and f_enomem = ref false and f_tagreclaim = ref false
   and f_trE = ref false and f_trL = ref false and f_trD = ref false
-  and f_split = ref false and f_grow = ref false and f_const = ref false and f_reject = ref false in
+  and f_split = ref false and f_grow = ref false and f_const = ref false and f_reject = ref false
+  and f_num = ref false and f_binstr = ref false and f_splitfail = ref false in
   List.iter (fun optxt ->
     if optxt <> "" && not !ub then begin
       let fail = optxt.[0] = '!' in
       let body = if fail then String.sub optxt 1 (String.length optxt - 1) else optxt in
+      (* "!<n>op": digits directly behind the '!' *)
+      let nd = ref 0 in
+      while !nd < String.length body && body.[!nd] >= '0' && body.[!nd] <= '9' do incr nd done;
+      let fm = if not fail then FNone else if !nd = 0 then FAll else FAt (int_of_string (String.sub body 0 !nd)) in
+      let body = String.sub body !nd (String.length body - !nd) in
       let broken = match buf_observe !b with Ok v -> buf_view_broken v | _ -> false in
       if broken && not (body = "t" || body = "tc" || starts_with "sp:" body) then
         (emit_m "SKIP"; emit_s "SKIP")
-      else match parse_op (not fail) body with
+      else match parse_op fm body with
         | None ->
           let vs = (match buf_observe !b with Ok v -> view_str v | _ -> "UB") in
           emit_m ("BADOP" ^ vs); emit_s ("BADOP" ^ vs)
@@ -103,12 +130,16 @@ let run_buf ops =
                 (* classification *)
                 if b' <> !b then incr nontriv;
                 if int_of_z o.bo_st = 15 then f_enomem := true;
-                (match op with BopSplit _ -> f_split := true | BopNewConst _ -> f_const := true | _ -> ());
+                (match op with BopSplit _ -> f_split := true | BopNewConst _ -> f_const := true
+                          | BopAppendNumDec _ | BopAppendNumHex _ -> f_num := true
+                          | BopParseBinstr _ -> f_binstr := true
+                          | BopSplitFailAt _ -> f_splitfail := true | _ -> ());
                 if b'.cb_alloc <> !b.cb_alloc && !b.cb_alloc <> Z0 && b'.cb_alloc <> Z0 then f_grow := true;
                 (* an append-type call that made ensure_space reclaim while a tag was set:
                    E = tag == offset, L = tag < offset, D = a prefix before the tag was discarded *)
                 (match op with
-                 | BopAppend _ | BopAppendByte _ | BopAppendBe16 _ | BopAppendBe32 _ | BopAppendStr _ | BopAppendViaStart _ ->
+                 | BopAppend _ | BopAppendByte _ | BopAppendBe16 _ | BopAppendBe32 _ | BopAppendStr _ | BopAppendViaStart _
+                 | BopAppendNumDec _ | BopAppendNumHex _ ->
                    (match (buf_abs !b).bs_tag with
                     | Some t when b'.cb_dlen <> !b.cb_dlen || b'.cb_off <> !b.cb_off ->
                       let reclaimed = int_of_z !b.cb_off - int_of_z b'.cb_off in
@@ -140,7 +171,9 @@ let run_buf ops =
     else if !nontriv < 2 then "trivial"
     else "buf" ^ (if !f_reject then "-specreject"
                   else if !f_tagreclaim then "-tagreclaim" ^ (if !f_trE then "E" else "") ^ (if !f_trL then "L" else "") ^ (if !f_trD then "D" else "")
-                  else if !f_contract then "-contract" else if !f_enomem then "-enomem"
+                  else if !f_contract then "-contract"
+                  else if !f_splitfail then "-splitfail" else if !f_binstr then "-binstr" else if !f_num then "-num"
+                  else if !f_enomem then "-enomem"
                   else if !f_split then "-split"
                   else if !f_grow then "-grow" else if !f_const then "-const" else "") in
   (String.concat " " (List.rev !mt), String.concat " " (List.rev !st), cls)
